@@ -17,9 +17,11 @@ def cfg0 : Cfg where
   onChain := fun g c => match g, c with
     | 0, 0 => true | 1, 0 => true | 2, _ => true | 3, 0 => true | 4, 0 => true | 4, 1 => true | _, _ => false
 
-def ledger0 : Ledger where
+/-- `m0fx`: FX locked in the eth module account at genesis (given on the `reset` line) -/
+def ledger0 (m0fx : Nat) : Ledger where
   bal := fun a x => match a, x with
     | .base 0, .user u => if u < nUsers then 1000 else 0
+    | .base 0, .chainMod 0 => m0fx
     | .erc 3, .user u => if u < nUsers then 500 else 0
     | .erc 4, .user u => if u < nUsers then 500 else 0
     | _, _ => 0
@@ -97,7 +99,7 @@ def parseOp (ws : List String) : Option Op :=
 
 def step' (s : State) (line : String) : State × String :=
   match words line with
-  | "reset" :: _ => (init ledger0, "ok")
+  | "reset" :: rest => (init (ledger0 ((rest.head?.bind String.toNat?).getD 0)), "ok")
   | ws =>
     match parseOp ws with
     | none => (s, "bad-op")
@@ -106,4 +108,4 @@ def step' (s : State) (line : String) : State × String :=
       | .ok s' => (s', "ok " ++ showState s')
       | .error _ => (s, "err " ++ showState s)
 
-def main : IO Unit := runDriver step' (init ledger0)
+def main : IO Unit := runDriver step' (init (ledger0 0))
